@@ -142,7 +142,7 @@ PROPS["C08"] = {
 
 # ---------------------------------------------------------------- C09
 PROPS["C09"] = {
-    "level_text": "MIKEY: totality on every byte string <= 24 (quick) / 32 (thorough) bytes and marshal/unmarshal idempotence on the accepted set; value-level round trip of every well-formed message (0-2 crypto sessions, up to 2-3 payloads of the four kinds, KEMAC with 1-2 key-data sub-payloads with/without SPI, SP with 0-2 parameters) and purity of Marshal. RTP-Info (1-2 entries, optional seq / rtptime from value spreads plus every value < 100), WWW-Authenticate and Authorization (Basic and Digest, symbolic quoted fields incl. separators, optional opaque/stale/algorithm), KeyMgmt text wrapper: marshal->unmarshal identity and purity. Session and Transport headers: marshal->unmarshal identity over the header's grammar (ports 0..65535 one at a time, SSRC all 32 bits, TTL/interleaved 8 bits, all profile/protocol/delivery/mode combinations). Parsing determinism of Transport and Range under every map iteration order (engine option -mapperm). Range NPT: millisecond-resolution times round-trip exactly (exact FP for ms <= 255/2047, ideal-arithmetic for ms <= 2^30). Session totality on all strings <= 8/10 bytes.",
+    "level_text": "MIKEY: totality on every byte string <= 24 (quick) / 32 (thorough) bytes and marshal/unmarshal idempotence on the accepted set; value-level round trip of every well-formed message (0-2 crypto sessions, up to 2-3 payloads of the four kinds, KEMAC with 1-2 key-data sub-payloads with/without SPI, SP with 0-2 parameters) and purity of Marshal. RTP-Info (1-2 entries, optional seq / rtptime from value spreads plus every value < 100), WWW-Authenticate and Authorization (Basic and Digest, symbolic quoted fields incl. separators, optional opaque/stale/algorithm), KeyMgmt text wrapper: marshal->unmarshal identity and purity. Session and Transport headers: marshal->unmarshal identity over the header's grammar (ports 0..65535 one at a time, SSRC all 32 bits, TTL/interleaved 8 bits, all profile/protocol/delivery/mode combinations). Parsing determinism (same value or the SAME failure) of Transport, Range, KeyMgmt, WWW-Authenticate, Authorization, Session and RTP-Info under every map iteration order (engine option -mapperm), on inputs of 2-3 tokens where several faults can coexist. Range NPT: millisecond-resolution times round-trip exactly (exact FP for ms <= 255/2047, ideal-arithmetic for ms <= 2^30). Session totality on all strings <= 8/10 bytes.",
     "level_note": "Trusted: strconv.FormatFloat/ParseFloat('f',-1,64) round-trips float64 exactly (stdlib contract, stubbed as an opaque inverse pair). Outside: UTC ranges, quoted fields longer than 1-2 bytes, fully symbolic 16/32-bit decimal fields in RTP-Info, session timeout > 99999 (decimal conversion of wide numbers is beyond the solvers), two fully symbolic ports at once.",
     "runs": [
         R("mikey-total", "pkg/mikey", "pkg/mikey", ["ZzC09MikeyTotal"], flags={"concoff": True}, quick_params={"P": 24}, thorough_params={"P": 32}),
@@ -172,6 +172,10 @@ PROPS["C09"] = {
         R("smpte-header", "pkg/headers", "pkg/headers", ["ZzC09RangeSMPTEHeader"], flags={"concoff": True}, quick_params={"NSEC": 1, "FMAX": 2}, thorough_params={"NSEC": 1, "FMAX": 10}),
         R("determinism", "pkg/headers", "pkg/headers", ["ZzC09TransportDeterministic", "ZzC09RangeDeterministic"], flags={"mapperm": True},
           quick_params={"NTOK": 2}, thorough_params={"NTOK": 3}, replay_repeat=400),
+    ] + [
+        R("determinism-hdr%d" % h, "pkg/headers", "pkg/headers", ["ZzC09HeadersDeterministic"], flags={"mapperm": True, "workers": 4}, params={"HDR": h},
+          quick_params={"NTOK": 2}, thorough_params={"NTOK": 3}, replay_repeat=400)
+        for h in range(5)
     ],
 }
 
